@@ -42,6 +42,11 @@ MCInit2 ==
        \cup (IF "ratlin" \in PtKinds
              THEN {[a |-> CvObj(Curve(U, Gen1(Npts(U)), LinW(U))), b |-> NoObj] : U \in {V \in AllKV : Deg(V) >= 2}}
              ELSE {})
+       \* a quadratic Bezier curve with weights (1, -1/4, 1): the weight function 1 - (5/2) u (1 - u) stays >= 3/8, the library
+       \* accepts it; every refinement of it has positive weights but goes back to a NEGATIVE one when it is cleaned
+       \cup (IF "negw" \in PtKinds
+             THEN {[a |-> CvObj(Curve(U, Gen1(3), <<One, Q(-1, 4), One>>)), b |-> NoObj] : U \in {V \in AllKV : Deg(V) = 2 /\ Npts(V) = 3}}
+             ELSE {})
        \cup (IF "homlin" \in PtKinds
              THEN UNION {{[a |-> CvObj(HomLin(U, W)), b |-> NoObj] : W \in {WGen1(Npts(U)), WGen2(Npts(U))}}
                             : U \in {V \in AllKV : Deg(V) >= 1}}
@@ -102,7 +107,9 @@ MCArgs(name, h, dep) ==
                [obj |-> "a", nodes |-> <<>>, scalar |-> FALSE, form |-> "tuple"]}
     [] name = "FnBasis" ->
          {[obj |-> "a", weights |-> W, j |-> j, u |-> u] :
-             W \in Wts(Npts(U)), j \in 0..Deg(U), u \in EvalGrid(U)}
+             W \in Wts(Npts(U)), j \in 0..Deg(U),
+             \* (also the break points of the universe that are no knots of U: parameters at thirds of long spans)
+             u \in EvalGrid(U) \cup {Breaks[i] : i \in 1..Len(Breaks)}}
     [] name = "CvKnotInsert" ->
          IF Scenario = "single" THEN
            {[obj |-> "a", nodes |-> n] : n \in MultisetsUpTo(NodePool(U), NodeSize)}
@@ -174,6 +181,8 @@ MCArgs(name, h, dep) ==
     [] name = "CvArith" ->
          {[obj |-> "a", other |-> B, op |-> o] : B \in Others({}), o \in {"add", "sub", "mul"}}
          \cup {[obj |-> "a", other |-> B, op |-> "div"] : B \in Others({"pos"})}
+         \* a divisor without zeros whose control polygon changes sign: (1, -1/2, 1) is 1 - 3t(1-t) >= 1/4
+         \cup {[obj |-> "a", other |-> Poly(<<Umin(U), Umin(U), Umin(U), Umax(U), Umax(U), Umax(U)>>, <<One, Q(-1, 2), One>>), op |-> "div"]}
          \* both operands rational (different weights, different knot vectors)
          \cup (IF h["a"].W = <<>> THEN {} ELSE
                {[obj |-> "a", other |-> B, op |-> o] : B \in {C \in Others({"pos", "rational"}) : C.W # <<>>},
@@ -253,6 +262,9 @@ BreaksQ == <<R(-1), R(0), R(2), R(3)>>
 BreaksT == <<R(0), Half, R(2), R(3)>>
 BreaksW == <<R(-1), R(0), Half, R(2), R(3), R(5)>>   \* wide: four interior break points, unequal spans
 DegsW == 3..4
+BreaksB == <<R(0), R(1)>>      \* single span: Bezier curves only
+Degs6 == {6, 13}
+Degs7 == {7, 14}
 Degs3 == {3}
 Degs0 == {0}
 BreaksN == <<R(0), Q(1, 3), Q(2, 3), R(1)>>   \* a SHORT interval: max(1, umax-umin) = 1, the tolerance bound is not diluted
